@@ -193,6 +193,41 @@ def bodyRun (mt : UInt8) (id : Bytes) : Nat → List ReadRes → List ReadRes ×
     let rest := bodyRun mt id ctr' rs
     (ret :: rest.1, f :: rest.2)
 
+/-! ### every sequence of calls on the wrapper
+
+The consumer may do anything an `io.ReadCloser` allows: `Close` before end-of-file and read on (a body installed
+by a modifier is often an `ioutil.NopCloser` over an in-memory reader and stays readable), `Close` twice, `Read`
+after EOF, zero-length reads, `Close` without any `Read`. A call is given with what the WRAPPED body returns for
+it. `bodyLogger.Close` is `return bl.body.Close()`: no frame, no state. `sticky = true` is the defective variant
+(a closed flag: every `Read` after a `Close` returns `(0, error)` without touching the body or sending a frame),
+kept for the counterexample. -/
+
+inductive Call
+  | read (r : ReadRes)     -- `Read(b)`; `r` = what the wrapped body returns for this call
+  | close (e : RdErr)      -- `Close()`; `e` = what the wrapped body's `Close` returns
+  deriving DecidableEq, Repr
+
+/-- the reads among the calls, in order -/
+def Call.reads : List Call → List ReadRes
+  | [] => []
+  | .read r :: cs => r :: Call.reads cs
+  | .close _ :: cs => Call.reads cs
+
+/-- (what the consumer gets back call by call, the frames sent, in order) -/
+def callRun (sticky : Bool) (mt : UInt8) (id : Bytes) : Nat → Bool → List Call → List Call × List Frame
+  | _, _, [] => ([], [])
+  | ctr, closed, .read r :: cs =>
+    if sticky && closed then
+      let rest := callRun sticky mt id ctr closed cs
+      (.read ⟨[], .other⟩ :: rest.1, rest.2)        -- `return 0, http.ErrBodyReadAfterClose`
+    else
+      let (ret, f, ctr') := bodyRead mt id ctr r
+      let rest := callRun sticky mt id ctr' closed cs
+      (.read ret :: rest.1, f :: rest.2)
+  | ctr, _, .close e :: cs =>
+    let rest := callRun sticky mt id ctr true cs
+    (.close e :: rest.1, rest.2)
+
 /-! ## the headers of a logged message -/
 
 /-- `proxyutil.Header.Map()`: the header map with `Host`, `Content-Length`, `Transfer-Encoding`
